@@ -50,7 +50,7 @@ MINIMA = {'server_push_judged': 8000, 'server_push_expected_ok': 2500, 'server_p
           'server_push_refused:pushed-parent': 200, 'server_push_block_decoded': 2500, 'server_push_while_setting_changed_midway': 500,
           'client_promise_judged': 8000, 'client_promise_accepted': 2000, 'client_promise_disabled_conn_error': 400,
           'client_promise_while_change_in_flight': 400, 'client_promise_refused_after_local_reset': 100,
-          'client_promise_bad_parent_refused': 500, 'client_promise_bad_headers_refused': 200, 'client_promise_on_pushed_stream_refused': 150,
+          'client_promise_bad_parent_refused': 500, 'client_promise_after_cleanup': 500, 'client_promise_bad_headers_refused': 200, 'client_promise_on_pushed_stream_refused': 150,
           'client_promised_stream_response_accepted': 800, 'client_promised_stream_request_refused': 150,
           'server_received_promise_refused': 150, 'server_frames_on_promised_stream_refused': 200,
           'duet_push_delivered_and_matched': 1500, 'duet_push_refused_by_server_as_expected': 200, 'duet_push_in_flight_setting_change': 150}
@@ -507,7 +507,10 @@ def client_case(idx, rng, rep):
             headers, hkind = rng.choice(BAD_REQS + BAD_INBOUND_ONLY), 'bad'
         verdict, why = conf('push', headers)
         reasons = []
-        if parent in pushed or (parent not in par and parent % 2 == 0):
+        if pushed.get(parent) == 'reset':
+            # a promised stream that E itself refused or reset: a further promise on it raced that reset and may simply be refused
+            reasons.append('pushed-parent-reset-locally')
+        elif parent in pushed or (parent not in par and parent % 2 == 0):
             reasons.append('pushed-parent')
         elif parent not in par:
             reasons.append('idle-parent')
@@ -523,8 +526,12 @@ def client_case(idx, rng, rep):
             reasons.append('bad-promised-id')
         if verdict is False:
             reasons.append('bad-headers')
+        cleaned = bool(reasons) and rng.random() < 0.5
+        if cleaned:
+            h.cleanup()        # the closed parent is forgotten: the classification must not depend on that
+            rep.count('client_promise_after_cleanup')
         steps.append(('P-PUSH_PROMISE', parent, k, promised, pclass, hkind, tuple(reasons), 'in-force=%d' % st['inforce'],
-                      'pending=%s' % st['pending']))
+                      'pending=%s' % st['pending'], 'cleaned' if cleaned else ''))
         res = h.send(build_promise(parent, promised, headers))
         rep.count('client_promise_judged')
         evs = [e for e in res.events if isinstance(e, h2.events.PushedStreamReceived)]
@@ -582,12 +589,19 @@ def client_case(idx, rng, rep):
             hi_p[0] = max(hi_p[0], promised)
             return
         refused = res.exc is not None or any(f.type == wire.RST_STREAM for f in res.frames)
+        must_be_connection_error = set(reasons) & {'idle-parent', 'parent-reset-by-peer', 'parent-ended-by-server', 'pushed-parent'}
+        if must_be_connection_error and res.exc is None:
+            # RFC 7540 6.6: a PUSH_PROMISE on a stream that is neither open nor half-closed (local) is a connection error; the only
+            # leniency is a parent that this endpoint reset itself (the promise raced the reset)
+            return fail('C22:promise-on-unusable-parent-not-a-connection-error:%s' % '+'.join(sorted(must_be_connection_error)),
+                        'PUSH_PROMISE although %s (parent forgotten: %s): frames %s events %s' %
+                        (reasons, cleaned, [f.brief() for f in res.frames], [type(e).__name__ for e in res.events]))
         if not refused:
             return fail('C22:promise-not-refused:%s' % '+'.join(reasons), 'no error for PUSH_PROMISE although %s; frames %s events %s' %
                         (reasons, [f.brief() for f in res.frames], [type(e).__name__ for e in res.events]))
         if res.exc is not None and not isinstance(res.exc, h2.exceptions.ProtocolError):
             return fail('C22:promise-refusal-wrong-exception:' + core.exc_key(res.exc), repr(res.exc))
-        if 'pushed-parent' in reasons:
+        if 'pushed-parent' in reasons or 'pushed-parent-reset-locally' in reasons:
             rep.count('client_promise_on_pushed_stream_refused')
         if 'bad-headers' in reasons:
             rep.count('client_promise_bad_headers_refused')
